@@ -11,6 +11,7 @@ from __future__ import annotations
 
 import copy
 import itertools
+import re
 
 import numpy as np
 
@@ -211,7 +212,7 @@ class World:
         """Spring-model force constants of the given supercell, shape (N,N,3,3), eV/A^2."""
         lat = np.array(supercell.cell, dtype=float)
         frac = np.array(supercell.scaled_positions, dtype=float)
-        sym = list(supercell.symbols)
+        sym = [re.sub(r"\d+$", "", x) for x in supercell.symbols]  # extended symbols (Cl1) share the species' springs
         n = len(sym)
         r0 = self.springs["r0"]
         rng_imgs = np.array(list(itertools.product(range(-2, 3), repeat=3)), dtype=float)  # 125 images
@@ -249,7 +250,7 @@ class World:
     def nac_params(self, primitive):
         if not self.nac_method:
             return None
-        sym = list(primitive.symbols)
+        sym = [re.sub(r"\d+$", "", x) for x in primitive.symbols]
         species = sorted(set(sym))
         z = self.spec["z"]
         counts = {s: sym.count(s) for s in species}
